@@ -498,6 +498,9 @@ func c16GenKnobs(rng *rand.Rand) c16Knobs {
 	if k.Requester == "grain" {
 		k.Disturb = "none"
 	}
+	if k.Disturb == "restart" && k.Noise == 0 {
+		k.Noise = 1 + rng.Intn(3)
+	}
 	return k
 }
 
@@ -607,9 +610,13 @@ func c16RunCase(t *testing.T, k c16Knobs, seed int64) c16Obs {
 	}
 
 	if k.Noise > 0 {
+		cands := c16ReqSites
+		if k.Requester == "grain" || len(cands) == 0 || rng.Intn(4) == 0 {
+			cands = vfNoiseSites("actor/reentrancy.go", "actor/async_reply.go", "internal/pendingasks", "actor/pid.go", "actor/grain_pid.go", "actor/stash.go")
+		}
 		obs.HotSites = verifrt.StartNoise(verifrt.NoiseConfig{
 			Seed: seed, GoschedPerMille: 20, HotSites: k.Noise,
-			Candidates:  vfNoiseSites("actor/reentrancy.go", "actor/async_reply.go", "internal/pendingasks", "actor/pid.go", "actor/grain_pid.go", "actor/stash.go"),
+			Candidates:  cands,
 			HotPerMille: 400, MinDelay: 20 * time.Microsecond, MaxDelay: 2 * time.Millisecond, Budget: 200,
 		})
 	}
@@ -693,15 +700,19 @@ func c16RunCase(t *testing.T, k c16Knobs, seed int64) c16Obs {
 		released bool
 	}
 	var episodes []*episode
-	disturbAt := -1
+	// restart cases: two or three restarts, each in the middle of a burst whose replies
+	// are arriving (completions on the turn race the restart's off-turn bookkeeping)
+	disturbRounds := map[int]bool{}
 	if k.Disturb == "restart" {
-		disturbAt = 1 + rng.Intn(k.Rounds-1)
+		for n := 2 + rng.Intn(2); n > 0; n-- {
+			disturbRounds[1+rng.Intn(k.Rounds-1)] = true
+		}
 	}
 	restarted := false
 
 	for round := 0; round < k.Rounds && len(led.recs) < maxRecs-64; round++ {
 		blockingPossible := k.Mode == "stash"
-		if blockingPossible && rng.Intn(3) == 0 && round != disturbAt {
+		if blockingPossible && rng.Intn(3) == 0 && !disturbRounds[round] {
 			// hold episode: a blocking request to a gated responder; every message sent
 			// before the release is enqueued before the reply, hence held
 			// first let everything outstanding finish (cancelling what has no timeout), so
@@ -753,10 +764,17 @@ func c16RunCase(t *testing.T, k c16Knobs, seed int64) c16Obs {
 		}
 		// burst round
 		ncmd := 1 + rng.Intn(2)
+		if disturbRounds[round] {
+			ncmd = 3
+		}
 		for c := 0; c < ncmd; c++ {
 			cmd := &c16Issue{done: make(chan struct{})}
 			for n := 1 + rng.Intn(8); n > 0; n-- {
-				cmd.Specs = append(cmd.Specs, newSpec())
+				sp := newSpec()
+				if disturbRounds[round] && rng.Intn(2) == 0 {
+					sp.Behave, sp.Delay = "prompt", 0
+				}
+				cmd.Specs = append(cmd.Specs, sp)
 			}
 			for n := rng.Intn(3); n > 0; n-- {
 				sendOrd(0, false)
@@ -766,8 +784,8 @@ func c16RunCase(t *testing.T, k c16Knobs, seed int64) c16Obs {
 				sendOrd(0, false)
 			}
 		}
-		if round == disturbAt && reqPID != nil {
-			time.Sleep(time.Duration(rng.Intn(8000)) * time.Microsecond)
+		if disturbRounds[round] && reqPID != nil {
+			time.Sleep(time.Duration(rng.Intn(3000)) * time.Microsecond)
 			led.disturbing.Store(true)
 			if err := reqPID.Restart(ctx); err != nil {
 				obs.Inconclusive = "restart failed: " + err.Error()
@@ -959,6 +977,89 @@ func c16RunCase(t *testing.T, k c16Knobs, seed int64) c16Obs {
 	return obs
 }
 
+// ---- site calibration: the yield sites only request traffic passes ---------------------
+
+var (
+	c16CalOnce  sync.Once
+	c16ReqSites []int
+)
+
+func c16Hits() []int64 {
+	out := make([]int64, verifrt.SiteCount)
+	for i := range out {
+		out[i] = verifrt.SiteHit(i)
+	}
+	return out
+}
+
+// c16Calibrate runs plain Tell traffic, then request traffic (replies, timeouts,
+// cancellations, stash mode) through an actor requester and keeps the sites of the
+// reentrancy code that only the second phase passed.
+func c16Calibrate(t *testing.T) {
+	c16CalOnce.Do(func() {
+		sys := vfNewSystem(t)
+		defer vfStop(sys)
+		ctx := context.Background()
+		mon := &c16TurnMon{}
+		led := &c16Ledger{ordHandled: make([]atomic.Int32, 1024), mon: mon, knobs: "calibration"}
+		resp, err := sys.Spawn(ctx, "resp0", &c16Responder{}, WithLongLived())
+		if err != nil {
+			t.Fatalf("spawn: %v", err)
+		}
+		ra := &c16Requester{targets: []*PID{resp}, names: []string{"resp0"}}
+		ra.core.led = led
+		pid, err := sys.Spawn(ctx, "requester", ra, WithLongLived(), WithReentrancy(reentrancy.New(reentrancy.WithMode(reentrancy.StashNonReentrant), reentrancy.WithMaxInFlight(4))))
+		if err != nil {
+			t.Fatalf("spawn: %v", err)
+		}
+		ra.core.sch.Store(any(pid))
+		verifrt.StartNoise(verifrt.NoiseConfig{Seed: 1})
+		h0 := c16Hits()
+		for i := 0; i < 200; i++ {
+			_ = Tell(ctx, pid, &c16Ord{Seq: int64(i)})
+			_ = Tell(ctx, resp, &c16Ord{Seq: int64(i)})
+		}
+		verifrt.WaitUntil(10*time.Second, func() bool { return led.ordHandled[199].Load() > 0 })
+		h1 := c16Hits()
+		var recs []*c16Rec
+		for i := 0; i < 12; i++ {
+			cmd := &c16Issue{done: make(chan struct{})}
+			for j := 0; j < 6; j++ {
+				sp := &c16Spec{Rid: int64(i*6 + j), API: "Request", Behave: []string{"prompt", "prompt", "late", "never"}[j%4], Delay: 8 * time.Millisecond, Timeout: 5 * time.Millisecond, CancelAfter: -1}
+				if j == 5 {
+					sp.Mode, sp.CancelAfter = "allowall", 0
+				}
+				rec := &c16Rec{spec: sp}
+				sp.rec = rec
+				rec.blocking.Store(sp.Mode == "")
+				recs = append(recs, rec)
+				cmd.Specs = append(cmd.Specs, sp)
+			}
+			_ = Tell(ctx, pid, cmd)
+			_ = Tell(ctx, pid, &c16Ord{Seq: int64(300 + i)})
+		}
+		verifrt.WaitUntil(10*time.Second, func() bool {
+			for _, rec := range recs {
+				if rec.accepted.Load() && rec.thens.Load() == 0 {
+					return false
+				}
+			}
+			return led.ordHandled[311].Load() > 0
+		})
+		h2 := c16Hits()
+		verifrt.StopNoise()
+		in := map[int]bool{}
+		for _, s := range verifrt.SitesIn("actor/pid.go", "actor/reentrancy.go", "actor/async_reply.go", "actor/stash.go", "internal/pendingasks") {
+			in[s] = true
+		}
+		for s := 0; s < verifrt.SiteCount; s++ {
+			if in[s] && h2[s]-h1[s] > 0 && h1[s]-h0[s] == 0 {
+				c16ReqSites = append(c16ReqSites, s)
+			}
+		}
+	})
+}
+
 // c16MailboxQuiet: the requester is idle with nothing queued (structural part of the
 // quiescence predicate).
 func c16MailboxQuiet(pid *PID, gp *grainPID) bool {
@@ -977,7 +1078,14 @@ func c16MailboxQuiet(pid *PID, gp *grainPID) bool {
 func TestVerif_C16(t *testing.T) {
 	r := verifrt.Start(t, "C16")
 	defer r.Finish()
-	r.Rule("case = one requester (actor, or grain) with reentrancy mode in {AllowAll, StashNonReentrant} and maxInFlight in {0,1,4} driven through 6-11 rounds: bursts of 1-8 Request/RequestName/RequestGrain(/RequestActor) issued from inside its handler to 4 actor + 2 grain responders that reply promptly / late (2-50 ms) / never / twice / panic, per-call timeouts 5-50 ms or none, per-call mode overrides, Cancel() inside the handler or from a foreign goroutine after 1-50 ms, ordinary messages interleaved; hold episodes (blocking request to a gated responder, 2-8 messages sent before the release = held by construction); requester restart mid-burst or shutdown mid-burst; 0-3 hot noise sites in reentrancy.go/pid.go/grain_pid.go/async_reply.go/stash.go; oracle = per-request continuation counter, goroutine identity of the continuation vs the goroutine that entered the requester's turn (runTurn hook), requester-side mirror of outstanding/blocking requests checked at every handled message and accept, order of held groups, audit of inFlightCount/blockingCount/requestStates at quiescence, race detector on plain requester state; non-trivial = >= 10 accepted requests and >= 2 kinds of outcome; distinct by knob tuple and seed")
+	r.Rule("case = one requester (actor, or grain) with reentrancy mode in {AllowAll, StashNonReentrant} and maxInFlight in {0,1,4} driven through 6-11 rounds: bursts of 1-8 Request/RequestName/RequestGrain(/RequestActor) issued from inside its handler to 4 actor + 2 grain responders that reply promptly / late (2-50 ms) / never / twice / panic, per-call timeouts 5-50 ms or none, per-call mode overrides, Cancel() inside the handler or from a foreign goroutine after 1-50 ms, ordinary messages interleaved; hold episodes (blocking request to a gated responder, 2-8 messages sent before the release = held by construction); 2-3 requester restarts mid-burst or shutdown mid-burst; 0-3 hot noise sites in reentrancy.go/pid.go/grain_pid.go/async_reply.go/stash.go; oracle = per-request continuation counter, goroutine identity of the continuation vs the goroutine that entered the requester's turn (runTurn hook), requester-side mirror of outstanding/blocking requests checked at every handled message and accept, order of held groups, audit of inFlightCount/blockingCount/requestStates at quiescence, race detector on plain requester state; non-trivial = >= 10 accepted requests and >= 2 kinds of outcome; distinct by knob tuple and seed")
+	c16Calibrate(t)
+	var names []string
+	for _, s := range c16ReqSites {
+		names = append(names, verifrt.SiteNames[s])
+	}
+	r.Note("request-only sites: %v", names)
+	r.Count("request_only_sites", int64(len(c16ReqSites)))
 	rng := r.Rand(16)
 	n := r.N(120, 4000)
 	for i := 0; i < n; i++ {
